@@ -38,7 +38,21 @@ def main(n, binary, build, PROPS):
             r = json.loads(subprocess.run([b, "replay", "--plan", path], stdout=subprocess.PIPE, text=True).stdout.splitlines()[-1])
             os.unlink(path)
             if r.get("hash") != a[s][0]: rep += 1
+        # sanitizer build: the allocator is the real one, and a forked run inherits the heap of the searching process, which differs
+        # between the two passes.  A world whose library code depends on heap addresses (known findings KF-C20-b/e/g/h) may then take
+        # another path although scheduler, clock and faults are identical.  Such a seed is told apart by two replays of its plan
+        # file in FRESH processes (equal initial heap): they must agree with each other.
+        heapdep = []
+        if cfg == "san":
+            for s in list(mism):
+                plan = subprocess.run([b, "gen", "--prop", prop, "--seed", str(s)], stdout=subprocess.PIPE, text=True).stdout
+                with tempfile.NamedTemporaryFile("w", suffix=".json", delete=False, dir=os.path.join(os.path.dirname(b))) as f:
+                    f.write(plan); path = f.name
+                hs = [json.loads(subprocess.run([b, "replay", "--plan", path], stdout=subprocess.PIPE, text=True).stdout.splitlines()[-1]).get("hash") for _ in range(2)]
+                os.unlink(path)
+                if hs[0] == hs[1]: heapdep.append(s); mism.remove(s)
         print("selftest %s: %d seeds, %d hash mismatches across processes, %d plan-file replays differ" % (prop, len(a), len(mism), rep), flush=True)
+        if heapdep: print("   (%d seeds, e.g. %s, differ between the two passes only: sanitizer build, real allocator, heap inherited from the searching process; two fresh-process replays of each agree -- the library's heap-address dependence, KF-C20-b/e/g/h)" % (len(heapdep), heapdep[:3]))
         if mism: print("   e.g. seeds", mism[:5], [(a[s][1], bmap[s][1]) for s in mism[:5]])
         if timeouts: print("   (%d runs hit the wall-clock watchdog in one of the passes and were not compared)" % len(timeouts))
         bad += len(mism) + rep
